@@ -119,8 +119,9 @@ class Cx:
         out = []
         for s in body.calls(callee_rx):
             for a in s.node()["args"]:
-                o = body.origin_op(a)
-                for m in re.finditer(r"closure:([^\[\]]+)\[", o):
+                o = body.origin_op(a, 0, None, s)
+                m = re.match(r"^closure:([^\[\]]+)\[", o)
+                if m:
                     cb = f.body(m.group(1))
                     if cb is not None and cb not in out:
                         out.append(cb)
@@ -231,19 +232,19 @@ def _cx_stores(self, body, place_rx=None):
         n = s.node()
         if n["k"] != "assign" or not n["p"]["pj"]:
             continue
-        po = body.origin_place(n["p"])
+        po = body.origin_place(n["p"], 0, None, s)
         if rx is not None and not rx.search(po):
             continue
-        out.append((s, po, body._origin_def(None, "assign", n, 0, None, ())))
+        out.append((s, po, body._origin_def(s, "assign", n, 0, None, ())))
     return out
 
 
 def _cx_arg(self, site, i, subst=None):
-    return site.body.origin_op(site.node()["args"][i], 0, subst)
+    return site.body.origin_op(site.node()["args"][i], 0, subst, site)
 
 
 def _cx_args(self, site, subst=None):
-    return [site.body.origin_op(a, 0, subst) for a in site.node()["args"]]
+    return [site.body.origin_op(a, 0, subst, site) for a in site.node()["args"]]
 
 
 def _cx_skipped_only_if(self, body, site, lit, what=None, exits=None):
